@@ -224,7 +224,8 @@ def theorem_domain(ctx):
 
 
 KEYWISE_THEOREMS = ['Nbdime.C06_model_keywise', 'Nbdime.C06_model_different_keys', 'Nbdime.apply_keywise_obj', 'Nbdime.C09_model_keywise_all',
-                    'Nbdime.C06_model_cells', 'Nbdime.C06_notebook_cells', 'Nbdime.apply_cells_only', 'Nbdime.C09_model_cells_choose']
+                    'Nbdime.C06_model_cells', 'Nbdime.C06_notebook_cells', 'Nbdime.apply_cells_only', 'Nbdime.C09_model_cells_choose',
+                    'Nbdime.C06_model_mixed', 'Nbdime.C06_notebook_mixed', 'Nbdime.apply_mixed_obj', 'Nbdime.mixed_two_stage']
 THEOREMS.extend(t for t in KEYWISE_THEOREMS if t not in THEOREMS)
 
 
@@ -428,12 +429,111 @@ def cellwise_domain(ctx):
     return mism
 
 
+def mixed_case(rng):
+    """cells edited by one side each (both sides edit at least one) and, next to it, the notebook metadata changed by one
+    side only or by both in the same way: the shape of C06_model_mixed (expected result by construction)"""
+    c = None
+    for _ in range(20):
+        c = cells_edit_case(rng)
+        if c is not None and 'remote' in c[4]['owners'] and len(c[0]['cells']) >= 2:
+            break
+        c = None
+    if c is None:
+        return None
+    base, l, r, e, info = c
+    mode = rng.choice(['meta-local', 'meta-remote', 'meta-same', 'meta-local-nested', 'meta-remote-remove'])
+    def change(md, who):
+        md = copy.deepcopy(md)
+        if mode == 'meta-remote-remove' and md:
+            del md[sorted(md)[0]]
+        elif mode == 'meta-local-nested':
+            md.setdefault('kernelspec', {'name': 'python3', 'display_name': 'Python 3'})
+            md['kernelspec'] = dict(md['kernelspec'], display_name='Python 3 (%s)' % who)
+        else:
+            md['verif_' + mode] = {'by': who if mode != 'meta-same' else 'both', 'n': [1, 2]}
+        return md
+    if mode in ('meta-local', 'meta-local-nested'):
+        l['metadata'] = change(base['metadata'], 'local')
+        e['metadata'] = copy.deepcopy(l['metadata'])
+    elif mode in ('meta-remote', 'meta-remote-remove'):
+        r['metadata'] = change(base['metadata'], 'remote')
+        e['metadata'] = copy.deepcopy(r['metadata'])
+    else:
+        l['metadata'] = change(base['metadata'], 'both')
+        r['metadata'] = change(base['metadata'], 'both')
+        e['metadata'] = copy.deepcopy(l['metadata'])
+    for nb in (base, l, r, e):
+        if not gen_nb.is_valid(nb):
+            return None
+    return base, l, r, e, dict(info, kind='mixed', meta=mode)
+
+
+def mixed_domain(ctx):
+    """cell edits next to one-sided / agreed changes of the notebook metadata, through the implementation and through the Lean
+    merger + applier; the decidable hypothesis `Merge.mixedwise` of C06_model_mixed is evaluated by the driver. Inside the
+    domain the theorem says apply(decide(base, ld, rd)) = patch(patch(base, ld), remaining remote entries) for the model; the
+    implementation has to return the notebook built by construction, without conflicts, and has to agree with the model."""
+    import random
+    from checks import mergemodel
+    rng = random.Random('C06/mixedwise/%s/%d' % (ctx.tier, ctx.seed))
+    combos = [mergelib.Args('inline'), mergelib.Args('mergetool'), mergelib.Args('use-remote'), mergelib.Args('union', 'inline', 'remove'),
+              mergelib.Args('inline', 'use-base', 'clear-all')]
+    cases, reqs = [], []
+    for t in range(40 if ctx.tier == 'quick' else 600):
+        c = mixed_case(rng)
+        if c is None:
+            continue
+        b, l, r, e, info = c
+        a = combos[t % len(combos)]
+        data = {'kind': 'owned', 'b': enc(b), 'l': enc(l), 'r': enc(r), 'expected': enc(e), 'info': info, 'strategy': a.key(), 'helper': 'builtin'}
+        with mergelib.renderer('builtin'):
+            res = mergelib.run_merge(b, l, r, a)
+        ctx.case('x' + canon(b) + canon(l) + canon(r) + json.dumps(a.key()), True)
+        ctx.count('mixed case:' + info['meta'])
+        if res[0] != 'ok':
+            ctx.violation('merge of edits to different cells and a one-sided metadata change raised %s' % res[2], dict(data, kind='raises'))
+            continue
+        if mergelib.has_conflict(res[2]):
+            ctx.violation('edits to different cells next to a one-sided / agreed metadata change are reported as a conflict (%s, %s) under %s' % (info['actions'], info['meta'], a.key()), data)
+        elif canon(res[1]) != canon(e):
+            ctx.violation('merge of edits to different cells next to a one-sided / agreed metadata change is not base with both sets of changes applied (%s, %s)' % (info['actions'], info['meta']), dict(data, got=enc(res[1])))
+        try:
+            nb, ld, rd, S = mergemodel.notebook_case(b, l, r, a)
+        except Exception:
+            continue
+        with mergelib.renderer('builtin'):
+            dres, req = mergemodel.impl_decide(nb, ld, rd, S)
+        cases.append((dres, data, e))
+        reqs += [req, dict(req, want='mixedwise', key='cells')]
+    replies = vlib.Driver().run(reqs) if reqs else []
+    mism = []
+    for i, (dres, data, e) in enumerate(cases):
+        rep, cw = replies[2 * i], replies[2 * i + 1]
+        ctx.cov['traces_validated_against_impl'] += 1
+        inside = cw.get('ok') is True
+        ctx.count('theorem-domain:mixedwise' if inside else 'theorem-domain:mixedwise-outside (an edited cell was not aligned / numeric alias)')
+        if not mergemodel.same(dres, rep):
+            mism.append({'stream': 'merge-model', 'tag': 'mixed', 'difference': mergemodel.first_difference(dres, rep), 'case': data})
+            continue
+        if inside:
+            merged, both = cw.get('merged', {}), cw.get('both', {})
+            if 'ok' in merged and 'ok' in both:
+                ctx.cov['theorem_hypothesis_checks'] = ctx.cov.get('theorem_hypothesis_checks', 0) + 1
+                if canon(dec(merged['ok'])) != canon(dec(both['ok'])):
+                    raise vlib.Infra('driver contradicts C06_model_mixed')
+                if canon(dec(merged['ok'])) != canon(plain(e)):
+                    mism.append({'stream': 'merge-model', 'tag': 'mixed-applied', 'difference': {'model_merged_differs_from_expected': True}, 'case': data})
+    ctx.cov['correspondence_mismatches'] = ctx.cov.get('correspondence_mismatches', 0) + len(mism)
+    return mism
+
+
 def run(ctx):
     from checks import mergemodel
     _run_property(ctx)
     mism = theorem_domain(ctx)
     mism += keywise_domain(ctx)
     mism += cellwise_domain(ctx)
+    mism += mixed_domain(ctx)
     mergemodel.tie(ctx, (40, 40, 400, 500), MERGE_MODEL_THEOREMS)
     mergemodel.report(ctx, mism, MERGE_MODEL_THEOREMS)
 
